@@ -8,7 +8,7 @@
    The remaining clauses of C01 (refusal instead of an exception; the slices replace-around and mark steps build)
    are evaluated per case by Corr.C01 on the implementation's observations. *)
 From Coq Require Import List NArith String.
-From PM Require Import Model.Data Model.Mark Model.Tree Model.Step Proofs.ReplaceValid Proofs.SliceSides Proofs.NodeStepValid Proofs.ReplaceSafe Proofs.StepSafe.
+From PM Require Import Model.Data Model.Mark Model.Tree Model.Step Proofs.ReplaceValid Proofs.SliceSides Proofs.NodeStepValid Proofs.ReplaceSafe Proofs.StepSafe Proofs.ReplaceSuccess.
 Import ListNotations.
 
 (* [check] is the model of Node.check; C07_check_iff (Properties/C07.v) relates it to the token-level
@@ -86,6 +86,23 @@ Corollary C01_no_internal_error : forall s st doc,
   is_elem doc -> leaves_empty s doc -> apply s st doc <> RErr ErrInternal.
 Proof. exact apply_no_internal_error. Qed.
 Print Assumptions C01_no_internal_error.
+
+(* WHEN a replace step applies, for the commonest shape of edit: a closed non-empty slice between two positions of the same
+   parent node.  It applies exactly when the parent's new child sequence is valid for the parent's type and otherwise
+   FAILS with a failed result - no exception of any kind (Proofs/ReplaceSuccess.v; the Node.replace form is in C02) *)
+Theorem C01_flat_replace_step_applies_iff_valid : forall s doc from to sl rf rt parent a b,
+  (exists ty at_ m cs, doc = Elem ty at_ m cs) ->
+  resolve s doc from = Ok rf -> resolve s doc to = Ok rt -> from <= to ->
+  rp_depth rf = rp_depth rt -> (forall d, d < rp_depth rf -> rp_index rf d = rp_index rt d) ->
+  sl_open_start sl = 0 -> sl_open_end sl = 0 -> frag_size s (sl_content sl) <> 0 ->
+  rp_parent rf = Ok parent ->
+  frag_cut s (node_content parent) 0 (rp_parent_offset rf) = Ok a ->
+  frag_cut s (node_content parent) (rp_parent_offset rt) (frag_size s (node_content parent)) = Ok b ->
+  if valid_content s (node_ty s parent) (frag_append (frag_append a (sl_content sl)) b)
+  then exists d', apply s (SReplace from to sl false) doc = ROk d'
+  else apply s (SReplace from to sl false) doc = RFail.
+Proof. exact flat_closed_replace_step. Qed.
+Print Assumptions C01_flat_replace_step_applies_iff_valid.
 
 (* the hypotheses are satisfiable by a slice open on both sides to different depths *)
 Local Open Scope string_scope.
